@@ -105,10 +105,10 @@ theorem agreeLe_of_rel (st : Static) (defsM defs1 defs2 : Defs) (ctx1 ctx2 : RCt
     rw [mkEnv_var] at h ⊢
     rw [hqv] at hq
     exact evalVariable_le st defsM defs1 defs2 ctx1 ctx2 rel l path hq v h hv
-  · intro n vs c; exact mkEnv_fn_asm st defs1 defs2 fuel ctx1 ctx2 n vs c
+  · intro n vs c v h _; rw [mkEnv_fn_asm st defs1 defs2 fuel ctx1 ctx2 n vs c]; exact h
   · intro n hq _
     rw [hqf] at hq
-    exact ⟨n, by rw [mkEnv_var]; exact evalVariable_asmBuiltin st defs1 ctx1 n hq,
+    exact Or.inl ⟨n, by rw [mkEnv_var]; exact evalVariable_asmBuiltin st defs1 ctx1 n hq,
       by rw [mkEnv_var]; exact evalVariable_asmBuiltin st defs2 ctx2 n hq⟩
 
 /-! ## providers and contexts in lockstep -/
